@@ -301,6 +301,24 @@ fn cmd_lexfile(args: &[String]) -> i32 {
     let Some(path) = args.first() else { return 2 };
     let reps: usize = arg(args, "--reps").and_then(|s| s.parse().ok()).unwrap_or(1);
     let Ok(src) = std::fs::read_to_string(path) else { return 2 };
+    if args.iter().any(|a| a == "--budget") {
+        // hooked run under the linear work budgets: decides an endless loop by steps, not by time
+        let ex = run::exec(&src);
+        return match &ex.outcome {
+            run::Outcome::Budget(b) => {
+                println!("BUDGET {} {} {}", b.counter, b.value, b.mode);
+                4
+            }
+            run::Outcome::Panic(p) => {
+                println!("PANIC {}", p.signature());
+                5
+            }
+            _ => {
+                println!("ok");
+                0
+            }
+        };
+    }
     let mut toks = 0u64;
     for _ in 0..reps {
         match sas_lexer::lex_program(&src) {
